@@ -157,6 +157,41 @@ pub fn fuzzrx(out: &mut Out, seed: u64, thorough: bool) {
     // (b1, b2) in lexicographic order with an identical observation
     families3(out, &states, thorough);
 
+    // ---- (i') well-formed extension chains cut short: the packet (consistent GSE length) ends after every byte
+    // of the chain area - inside extension data, right after it (no type field follows), inside the type field
+    for first_id in [0x0042u16, 0x0043, 0x0081, 0x0100, 0x0211, 0x0322, 0x05FF, 0x0099] {
+        for second in [0x0211u16, 0x0042, 0x0800] {
+            // data of the first extension as the standard manager / the H-LEN table sizes it
+            let d1 = match first_id {
+                0x0042 => 3,
+                0x0043 => 2,
+                0x0081 | 0x0099 => 0,
+                x => 2 * ((x >> 8) as usize).saturating_sub(1),
+            };
+            let mut chain: Vec<u8> = (0..d1).map(|i| 0xD0 + i as u8).collect();
+            chain.extend(second.to_be_bytes());
+            if second < 0x0600 {
+                chain.extend(if second == 0x0042 { vec![1, 2, 3] } else { vec![1, 2] });
+                chain.extend(0x0800u16.to_be_bytes());
+            }
+            chain.extend([0xEE, 0xEF, 0xF0]);
+            for cut in 0..=chain.len() {
+                for kind in [3u8, 2] {
+                    let mut rx = rx_in_state(out, "fuzzrx", "cut_chain", RxState::Fresh, std_mgr());
+                    let p = P { kind, lt: 1, fragid: 4, tl: 40, ptype: first_id, label: vec![0x0A, 0x0B, 0x0C], chain: chain[..cut].to_vec(), payload: vec![], crc: 0, gse_len: None };
+                    let b = p.ser();
+                    feed(out, &mut rx, &b, vec![]);
+                    rx.ev_peek(out, &b, false);
+                    // and the same bytes followed by another packet
+                    let mut two = b.clone();
+                    two.extend(complete(&[1, 2, 3], &[9, 9, 9], false, 0x0800).ser());
+                    feed(out, &mut rx, &two, vec![]);
+                    rx.ev_drain(out);
+                }
+            }
+        }
+    }
+
     // ---- (ii) headers x truncations x adversarial tails
     let mut lens: Vec<usize> = (0..=20).collect();
     lens.extend([21, 25, 26, 30, 31, 40, 63, 64, 65, 66, 67, 70, 71, 100, 255, 256, 1000, 4094, 4095]);
